@@ -57,3 +57,62 @@ Definition usable (k : bytes) : Prop := wf_priv k.
 
 (* the peer id of a private key (peer.IDFromPrivateKey) *)
 Definition id_of_priv (k : bytes) : outcome bytes := p <- priv_get_public k ;; Ok (id_from_pub p).
+
+(* ---------- cli/envelope.go: loadPrivKeys / loadPubKeys over a list of key paths ---------- *)
+
+Definition ELoad : nat := 45%nat.     (* "load key <path>" *)
+
+(* one path: its state, the key crypto/rand would generate, whether a write can succeed *)
+Definition path_in : Type := (fstate * option bytes * bool)%type.
+
+(* one iteration of loadPrivKeys: OpenOrWritePrivKey, on error the fallback
+   os.ReadFile + keypem.ParsePrivKeyPem; the key appended may be nil (None) *)
+Definition load_priv_one (pd : pem_oracle) (p : path_in) : outcome (option bytes) :=
+  let '(st, gen, wok) := p in
+  match fst (open_or_write pd st gen wok) with
+  | Panic => Panic
+  | Err e => Err e
+  | Ok (k, None) => Ok k
+  | Ok (_, Some _) =>
+      match st with
+      | FFile dat =>                                   (* os.ReadFile succeeds on a regular file only *)
+          match parse_priv_key_pem pd dat with
+          | Ok (Some k) => Ok (Some k)
+          | Panic => Panic
+          | _ => Err ELoad                             (* readErr != nil || priv == nil *)
+          end
+      | _ => Err ELoad
+      end
+  end.
+
+(* one iteration of loadPubKeys: priv.GetPublic() dereferences the key *)
+Definition load_pub_one (pd : pem_oracle) (p : path_in) : outcome bytes :=
+  let '(st, gen, wok) := p in
+  match fst (open_or_write pd st gen wok) with
+  | Panic => Panic
+  | Err e => Err e
+  | Ok (Some k, None) => priv_get_public k
+  | Ok (None, None) => Panic                           (* nil interface method call *)
+  | Ok (_, Some _) => Err ELoad
+  end.
+
+(* the loop: stop at the first error *)
+Fixpoint seq_all {A} (l : list (outcome A)) : outcome (list A) :=
+  match l with
+  | [] => Ok []
+  | o :: r => x <- o ;; xs <- seq_all r ;; Ok (x :: xs)
+  end.
+
+Definition load_priv_keys (pd : pem_oracle) (ps : list path_in) : outcome (list (option bytes)) :=
+  seq_all (map (load_priv_one pd) ps).
+Definition load_pub_keys (pd : pem_oracle) (ps : list path_in) : outcome (list bytes) :=
+  seq_all (map (load_pub_one pd) ps).
+
+(* a path that cannot yield a key *)
+Definition bad_path (pd : pem_oracle) (p : path_in) : Prop :=
+  let '(st, gen, wok) := p in
+  match st with
+  | FStatErr | FReadErr => True
+  | FMissing => gen = None \/ wok = false
+  | FFile dat => forall k, parse_priv_key_pem pd dat <> Ok (Some k)
+  end.
